@@ -184,7 +184,7 @@ def snapshot(b):
     return {
         "E": ep._session.next_num_in, "N": ep._session.next_num_out, "state": ep.connection_state,
         "written": len(b.link.writers[b.side].written), "msgs": len(ep.app_msgs), "events": len(ep.events),
-        "disc": ep.disconnects, "out_rows": len(ep._journaler.recover_messages(ep._session, MessageDirection.OUTBOUND, 0, 2**62)),
+        "disc": ep.disconnects, "out_rows": len(list(ep._journaler.recover_messages(ep._session, MessageDirection.OUTBOUND, 0, 2**62))),
     }
 
 
